@@ -524,3 +524,480 @@ MODELS2 += [
     (P(r'^(HashSet|BTreeSet)::<.*>::insert$'), m_set_insert),
     (P(r'^std::cmp::(min|max)::<(u8|u16|u32|u64|usize)>$'), m_min_max),
 ]
+
+
+# --------------------------------------------------------------------------- more set / map / Vec / graph models (minimiser)
+_deep_eq_base = deep_eq
+
+
+def deep_eq(ex, st, p, q):      # noqa: F811  (extends the definition above with node / edge indices and sets)
+    p0, q0 = deref(st, p), deref(st, q)
+    if isinstance(p0, Opaque) and isinstance(q0, Opaque) and p0.tag == q0.tag and p0.tag in ('node', 'edge'):
+        return z3.BoolVal(p0.p == q0.p)
+    if isinstance(p0, TupV) and isinstance(q0, TupV) and p0.tag == 'Set' and q0.tag == 'Set':
+        a, b = list(p0.get('items').items), list(q0.get('items').items)
+        if len(a) != len(b):
+            return z3.BoolVal(False)
+        return z3.And(*[z3.Or(*[deep_eq(ex, st, x, y) for y in b]) for x in a]) if a else z3.BoolVal(True)
+    return _deep_eq_base(ex, st, p0, q0)
+
+
+def _set_ref(st, r):
+    while isinstance(st.load(r), RefV):
+        r = st.load(r)
+    v = st.load(r)
+    if not (isinstance(v, TupV) and v.tag == 'Set'):
+        raise Inconclusive('expected a set, got %r' % (v,))
+    return r, v
+
+
+def _member(ex, st, items, x):
+    return z3.Or(*[deep_eq(ex, st, y, x) for y in items]) if items else z3.BoolVal(False)
+
+
+def m_set_contains(ex, st, fr, callee, a, depth):
+    r, sv = _set_ref(st, a[0])
+    return z3.simplify(_member(ex, st, sv.get('items').items, a[1]))
+
+
+def m_set_iter(ex, st, fr, callee, a, depth):
+    """HashSet / BTreeSet iteration in INSERTION order (one of the orders the real hash set may produce)"""
+    r, sv = _set_ref(st, a[0])
+    return IterV('list', by_ref=RefV(r.addr, r.path + (0,)))
+
+
+def _set_op(kind):
+    def m(ex, st, fr, callee, a, depth):
+        ra, sa = _set_ref(st, a[0])
+        rb, sb = _set_ref(st, a[1])
+        A, B = list(sa.get('items').items), list(sb.get('items').items)
+        cur = [(st, [])]
+        for i, x in enumerate(A):
+            nxt = []
+            for s, acc in cur:
+                for s2, inb in ex.branch(s, _member(ex, s, B, x)):
+                    keep = inb if kind == 'intersection' else not inb
+                    nxt.append((s2, acc + [RefV(ra.addr, ra.path + (0, i))] if keep else acc))
+            cur = nxt
+        return [(s, IterV('list', items=tuple(acc))) for s, acc in cur]
+    m.__name__ = 'm_set_' + kind
+    return m
+
+
+def m_set_len(ex, st, fr, callee, a, depth):
+    r, sv = _set_ref(st, a[0])
+    return BV(len(sv.get('items').items), 64)
+
+
+def m_set_is_empty(ex, st, fr, callee, a, depth):
+    r, sv = _set_ref(st, a[0])
+    return z3.BoolVal(len(sv.get('items').items) == 0)
+
+
+def collect_set(ex, st, xs):
+    """duplicate-free list from items (forks on undecided equalities) -> [(state, Set value)]"""
+    cur = [(st, [])]
+    for x in xs:
+        x = deref(st, x) if isinstance(x, RefV) and isinstance(st.load(x), Opaque) else x
+        nxt = []
+        for s, acc in cur:
+            for s2, dup in ex.branch(s, _member(ex, s, acc, x)):
+                nxt.append((s2, acc if dup else acc + [x]))
+        cur = nxt
+    return [(s, TupV((ListV(acc),), ('items',), 'Set')) for s, acc in cur]
+
+
+def m_collect_set(ex, st, fr, callee, a, depth):
+    outs = []
+    for s, xs in elems(ex, st, a[0], depth):
+        outs += collect_set(ex, s, xs)
+    return outs
+
+
+def m_partition(ex, st, fr, callee, a, depth):
+    """Iterator::partition into two sets"""
+    if 'HashSet' not in callee and 'BTreeSet' not in callee:
+        raise Inconclusive('partition into ' + callee)
+    outs = []
+    for s, xs in elems(ex, st, a[0], depth):
+        for s1, flags in call_seq(ex, s, a[1], xs, depth, by_ref=True):
+            cur = [(s1, [], [])]
+            for x, f in zip(xs, flags):
+                nxt = []
+                for s2, t_, f_ in cur:
+                    for s3, tv in truth_forks(ex, s2, f):
+                        nxt.append((s3, t_ + [x], f_) if tv else (s3, t_, f_ + [x]))
+                cur = nxt
+            for s2, t_, f_ in cur:
+                outs.append((s2, TupV((TupV((ListV(t_),), ('items',), 'Set'), TupV((ListV(f_),), ('items',), 'Set')))))
+    return outs
+
+
+def m_vec_drain(ex, st, fr, callee, a, depth):
+    """Vec::drain(range): the range is removed (as it is once the Drain is dropped) and its elements are yielded"""
+    r = _list_ref(st, a[0])
+    v = st.load(r)
+    lo, hi = _bounds(st, a[1], len(v.items))
+    if lo > hi or hi > len(v.items):
+        return Outcome(st, None, panic='drain range out of bounds')
+    st.store(r, ListV(v.items[:lo] + v.items[hi:]))
+    return IterV('list', items=tuple(v.items[lo:hi]))
+
+
+def m_vec_remove(ex, st, fr, callee, a, depth):
+    r = _list_ref(st, a[0])
+    v = st.load(r)
+    i = concrete(a[1])
+    if i is None:
+        raise Inconclusive('Vec::remove at a symbolic index')
+    if i >= len(v.items):
+        return Outcome(st, None, panic='removal index out of bounds')
+    st.store(r, ListV(v.items[:i] + v.items[i + 1:]))
+    return v.items[i]
+
+
+def m_slice_contains_deep(ex, st, fr, callee, a, depth):
+    v = deref(st, a[0])
+    if not isinstance(v, ListV):
+        return NotImplemented
+    x = a[1]
+    try:
+        return z3.simplify(_member(ex, st, v.items, x))
+    except Inconclusive:
+        return NotImplemented
+
+
+def m_node_indices(ex, st, fr, callee, a, depth):
+    r, g = _graph_ref(st, a[0])
+    return IterV('list', items=tuple(Opaque('node', i) for i in range(len(g.get('nodes').items))))
+
+
+def m_graph_neighbors_directed(ex, st, fr, callee, a, depth):
+    r, g = _graph_ref(st, a[0])
+    n = _node_id(a[1])
+    d = a[2]
+    incoming = isinstance(d, EnumV) and d.variant == 'Incoming' or (isinstance(d, FnItem) and 'Incoming' in d.path) or \
+        (isinstance(d, Opaque) and 'Incoming' in str(d.p))
+    outgoing = isinstance(d, EnumV) and d.variant == 'Outgoing' or (isinstance(d, FnItem) and 'Outgoing' in d.path)
+    if not (incoming or outgoing):
+        raise Inconclusive('direction %r' % (d,))
+    if incoming:
+        outs = [Opaque('node', concrete(e.fields[0])) for e in g.get('edges').items if concrete(e.fields[1]) == n]
+    else:
+        outs = [Opaque('node', concrete(e.fields[1])) for e in g.get('edges').items if concrete(e.fields[0]) == n]
+    return IterV('list', items=tuple(reversed(outs)))
+
+
+def m_graph_node_count(ex, st, fr, callee, a, depth):
+    r, g = _graph_ref(st, a[0])
+    return BV(len(g.get('nodes').items), 64)
+
+
+def m_node_eq(ex, st, fr, callee, a, depth):
+    return deep_eq(ex, st, a[0], a[1])
+
+
+def m_hashmap_insert(ex, st, fr, callee, a, depth):
+    r, mp = _map_ref(st, a[0])
+    entries = list(mp.get('entries').items)
+    outs = []
+    work = [(st, 0)]
+    while work:
+        s, i = work.pop()
+        if i == len(entries):
+            ents = list(s.load(r).get('entries').items) + [TupV((a[1], a[2]))]
+            s.store(r, TupV((ListV(ents),), ('entries',), 'HashMap'))
+            outs.append((s, NONE))
+            continue
+        for s2, same in ex.branch(s, deep_eq(ex, s, entries[i].fields[0], a[1])):
+            if same:
+                ents = list(s2.load(r).get('entries').items)
+                old = ents[i].fields[1]
+                ents[i] = TupV((ents[i].fields[0], a[2]))
+                s2.store(r, TupV((ListV(ents),), ('entries',), 'HashMap'))
+                outs.append((s2, some(old)))
+            else:
+                work.append((s2, i + 1))
+    return outs
+
+
+def m_hashmap_get(ex, st, fr, callee, a, depth):
+    r, mp = _map_ref(st, a[0])
+    entries = list(mp.get('entries').items)
+    outs = []
+    work = [(st, 0)]
+    while work:
+        s, i = work.pop()
+        if i == len(entries):
+            outs.append((s, NONE))
+            continue
+        for s2, same in ex.branch(s, deep_eq(ex, s, entries[i].fields[0], a[1])):
+            if same:
+                outs.append((s2, some(RefV(r.addr, r.path + (0, i, 1)))))
+            else:
+                work.append((s2, i + 1))
+    return outs
+
+
+MODELS2 = [
+    (P(r'^(HashSet|BTreeSet)::<.*>::contains::<'), m_set_contains),
+    (P(r'^(HashSet|BTreeSet)::<.*>::iter$|^<&(HashSet|BTreeSet)<.*> as IntoIterator>::into_iter$'), m_set_iter),
+    (P(r'^HashSet::<.*>::intersection$'), _set_op('intersection')),
+    (P(r'^HashSet::<.*>::difference$'), _set_op('difference')),
+    (P(r'^(HashSet|BTreeSet)::<.*>::len$'), m_set_len),
+    (P(r'^(HashSet|BTreeSet)::<.*>::is_empty$'), m_set_is_empty),
+    (P(r' as Iterator>::collect::<(HashSet|BTreeSet)<'), m_collect_set),
+    (P(r' as Iterator>::partition::<'), m_partition),
+    (P(r'^Vec::<.*>::drain::<'), m_vec_drain),
+    (P(r'^Vec::<.*>::remove$'), m_vec_remove),
+    (P(r'^core::slice::<impl \[.*(HashSet|NodeIndex).*\]>::contains$'), m_slice_contains_deep),
+    (P(r'^StableGraph::<.*>::node_indices$'), m_node_indices),
+    (P(r'^StableGraph::<.*>::neighbors_directed$'), m_graph_neighbors_directed),
+    (P(r'^StableGraph::<.*>::node_count$'), m_graph_node_count),
+    (P(r'^<&*(NodeIndex|HashSet<.*>) as PartialEq>::eq$'), m_node_eq),
+    (P(r'^HashMap::<.*>::insert$'), m_hashmap_insert),
+    (P(r'^HashMap::<.*>::get::<'), m_hashmap_get),
+    (P(r'^<(HashSet|BTreeSet|HashMap)<.*> as Clone>::clone$'), m_plain_clone),
+] + MODELS2
+
+
+# --------------------------------------------------------------------------- petgraph Dfs / edge references, ndarray, Box (state elimination)
+def m_dfs_new(ex, st, fr, callee, a, depth):
+    """petgraph Dfs: explicit stack + discovered set (concrete)"""
+    return TupV((ListV((a[1],)), ListV(())), ('stack', 'discovered'), 'Dfs')
+
+
+def m_dfs_next(ex, st, fr, callee, a, depth):
+    r = a[0]
+    while isinstance(st.load(r), RefV):
+        r = st.load(r)
+    d = st.load(r)
+    rg, g = _graph_ref(st, a[1])
+    stack = [_node_id(x) for x in d.get('stack').items]
+    disc = [_node_id(x) for x in d.get('discovered').items]
+    edges = g.get('edges').items
+    while stack:
+        node = stack.pop()
+        if node in disc:
+            continue
+        disc.append(node)
+        succ = [concrete(e.fields[1]) for e in edges if concrete(e.fields[0]) == node]
+        for s_ in reversed(succ):            # neighbors(): newest edge first
+            if s_ not in disc:
+                stack.append(s_)
+        st.store(r, TupV((ListV([Opaque('node', x) for x in stack]), ListV([Opaque('node', x) for x in disc])), ('stack', 'discovered'), 'Dfs'))
+        return some(Opaque('node', node))
+    st.store(r, TupV((ListV(()), ListV([Opaque('node', x) for x in disc])), ('stack', 'discovered'), 'Dfs'))
+    return NONE
+
+
+def m_edges_directed(ex, st, fr, callee, a, depth):
+    r, g = _graph_ref(st, a[0])
+    n = _node_id(a[1])
+    d = a[2]
+    incoming = 'Incoming' in (d.path if isinstance(d, FnItem) else getattr(d, 'variant', ''))
+    idx = [i for i, e in enumerate(g.get('edges').items) if concrete(e.fields[1 if incoming else 0]) == n]
+    return IterV('list', items=tuple(Opaque('edgeref', r, i) for i in reversed(idx)))
+
+
+def m_edgeref_weight(ex, st, fr, callee, a, depth):
+    e = deref(st, a[0]) if isinstance(a[0], RefV) else a[0]
+    r, i = e.p
+    return RefV(r.addr, r.path + (1, i, 2))
+
+
+def m_edgeref_target(ex, st, fr, callee, a, depth):
+    e = deref(st, a[0]) if isinstance(a[0], RefV) else a[0]
+    r, i = e.p
+    return Opaque('node', concrete(st.load(r).get('edges').items[i].fields[1]))
+
+
+def m_edgeref_source(ex, st, fr, callee, a, depth):
+    e = deref(st, a[0]) if isinstance(a[0], RefV) else a[0]
+    r, i = e.p
+    return Opaque('node', concrete(st.load(r).get('edges').items[i].fields[0]))
+
+
+def m_array_default(ex, st, fr, callee, a, depth):
+    """ndarray Array1 / Array2::<Option<T>>::default(shape): all None"""
+    sh = a[0]
+    if isinstance(sh, TupV):
+        rws, cls = concrete(sh.fields[0]), concrete(sh.fields[1])
+        if rws is None or cls is None:
+            raise Inconclusive('array with a symbolic shape')
+        return TupV((ListV([ListV([NONE] * cls) for _ in range(rws)]),), ('data',), 'Array2')
+    n = concrete(sh)
+    if n is None:
+        raise Inconclusive('array with a symbolic shape')
+    return TupV((ListV([NONE] * n),), ('data',), 'Array1')
+
+
+def m_array_index(ex, st, fr, callee, a, depth):
+    r = a[0]
+    while isinstance(st.load(r), RefV):
+        r = st.load(r)
+    arr = st.load(r)
+    if not (isinstance(arr, TupV) and arr.tag in ('Array1', 'Array2')):
+        raise Inconclusive('index into %r' % (arr,))
+    if arr.tag == 'Array2':
+        i, j = concrete(a[1].fields[0]), concrete(a[1].fields[1])
+        rows = arr.get('data').items
+        if i is None or j is None:
+            raise Inconclusive('symbolic array index')
+        if i >= len(rows) or j >= len(rows[i].items):
+            return Outcome(st, None, panic='ndarray: index out of bounds')
+        return RefV(r.addr, r.path + (0, i, j))
+    i = concrete(a[1])
+    if i is None:
+        raise Inconclusive('symbolic array index')
+    if i >= len(arr.get('data').items):
+        return Outcome(st, None, panic='ndarray: index out of bounds')
+    return RefV(r.addr, r.path + (0, i))
+
+
+def m_array_is_empty(ex, st, fr, callee, a, depth):
+    arr = deref(st, a[0])
+    return z3.BoolVal(len(arr.get('data').items) == 0)
+
+
+def m_box_from(ex, st, fr, callee, a, depth):
+    return st.ref(a[0])
+
+
+def m_box_clone(ex, st, fr, callee, a, depth):
+    b = a[0]
+    while isinstance(st.load(b), RefV) and isinstance(st.load(st.load(b)), RefV):
+        b = st.load(b)
+    inner = st.load(b)              # the Box itself (a RefV) or, for &Box, a ref to it
+    val = st.load(inner) if isinstance(inner, RefV) else inner
+    return st.ref(val)
+
+
+def m_noop_unit(ex, st, fr, callee, a, depth):
+    return UNIT
+
+
+def m_deep_eq(ex, st, fr, callee, a, depth):
+    r = deep_eq_full(ex, st, a[0], a[1])
+    return z3.Not(r) if callee.endswith('::ne') else r
+
+
+def deep_eq_full(ex, st, p, q):
+    """deep_eq extended to enum values (variant + fields)"""
+    p0, q0 = deref(st, p), deref(st, q)
+    if isinstance(p0, EnumV) and isinstance(q0, EnumV):
+        if p0.enum != q0.enum or p0.variant != q0.variant or len(p0.fields) != len(q0.fields):
+            return z3.BoolVal(False)
+        parts = [deep_eq_full(ex, st, x, y) for x, y in zip(p0.fields, q0.fields)]
+        return z3.And(*parts) if parts else z3.BoolVal(True)
+    if isinstance(p0, ListV) and isinstance(q0, ListV):
+        if len(p0.items) != len(q0.items):
+            return z3.BoolVal(False)
+        parts = [deep_eq_full(ex, st, x, y) for x, y in zip(p0.items, q0.items)]
+        return z3.And(*parts) if parts else z3.BoolVal(True)
+    if isinstance(p0, TupV) and isinstance(q0, TupV) and p0.tag not in ('Set',):
+        if len(p0.fields) != len(q0.fields):
+            return z3.BoolVal(False)
+        parts = [deep_eq_full(ex, st, x, y) for x, y in zip(p0.fields, q0.fields)]
+        return z3.And(*parts) if parts else z3.BoolVal(True)
+    if z3.is_bool(p0) if is_z3(p0) else False:
+        return p0 == q0
+    return deep_eq(ex, st, p0, q0)
+
+
+def m_slice_reverse(ex, st, fr, callee, a, depth):
+    r = _list_ref(st, a[0])
+    st.store(r, ListV(tuple(reversed(st.load(r).items))))
+    return UNIT
+
+
+def m_sort_by_key(ex, st, fr, callee, a, depth):
+    """<[T]>::sort_by_key with an unsigned or Reverse<unsigned> key (stable)"""
+    r = _list_ref(st, a[0])
+    items = list(st.load(r).items)
+    outs = []
+    refs = [RefV(r.addr, r.path + (i,)) for i in range(len(items))]
+    for s1, keys in call_seq(ex, st, a[1], refs, depth):
+        def keyval(k):
+            k = deref(s1, k)
+            rev = False
+            while isinstance(k, TupV) and len(k.fields) == 1:
+                rev = rev or k.tag == 'Reverse'
+                k = k.fields[0]
+            return k, rev
+        pairs = [TupV((keyval(k)[0], x)) for k, x in zip(keys, items)]
+        rev = any(keyval(k)[1] for k in keys)
+
+        def cmp(ss, p, q):
+            res = cmp_scalar_forks(ex, ss, p.fields[0], q.fields[0])
+            if rev:
+                res = [(s_, {'Less': 'Greater', 'Greater': 'Less', 'Equal': 'Equal'}[c]) for s_, c in res]
+            return res
+        for s2, srt in _stable_sort(ex, s1, pairs, cmp):
+            s2.store(r, ListV([p.fields[1] for p in srt]))
+            outs.append((s2, UNIT))
+    return outs
+
+
+def m_set_union(ex, st, fr, callee, a, depth):
+    ra, sa = _set_ref(st, a[0])
+    rb, sb = _set_ref(st, a[1])
+    A, B = list(sa.get('items').items), list(sb.get('items').items)
+    cur = [(st, [RefV(ra.addr, ra.path + (0, i)) for i in range(len(A))])]
+    for j, y in enumerate(B):
+        nxt = []
+        for s, acc in cur:
+            for s2, ina in ex.branch(s, _member(ex, s, A, y)):
+                nxt.append((s2, acc if ina else acc + [RefV(rb.addr, rb.path + (0, j))]))
+        cur = nxt
+    return [(s, IterV('list', items=tuple(acc))) for s, acc in cur]
+
+
+def m_zip_longest(ex, st, fr, callee, a, depth):
+    outs = []
+    for s, xs in elems(ex, st, a[0], depth):
+        for s2, ys in elems(ex, s, a[1], depth):
+            items = []
+            for i in range(max(len(xs), len(ys))):
+                if i < len(xs) and i < len(ys):
+                    items.append(EnumV('EitherOrBoth', 'Both', 0, (xs[i], ys[i])))
+                elif i < len(xs):
+                    items.append(EnumV('EitherOrBoth', 'Left', 1, (xs[i],)))
+                else:
+                    items.append(EnumV('EitherOrBoth', 'Right', 2, (ys[i],)))
+            outs.append((s2, IterV('list', items=tuple(items))))
+    return outs
+
+
+def m_unwrap_or_default(ex, st, fr, callee, a, depth):
+    o = a[0]
+    if isinstance(o, EnumV) and o.variant == 'Some':
+        return o.fields[0]
+    if 'Vec<' in callee:
+        return ListV(())
+    if 'String' in callee:
+        return SymStr(())
+    raise Inconclusive('unwrap_or_default of ' + callee)
+
+
+MODELS2 = [
+    (P(r'^Dfs::<.*>::new::<'), m_dfs_new),
+    (P(r'^Dfs::<.*>::next::<'), m_dfs_next),
+    (P(r'^StableGraph::<.*>::edges_directed$'), m_edges_directed),
+    (P(r'EdgeReference::<.*>::weight$|EdgeReference<.*> as EdgeRef>::weight$'), m_edgeref_weight),
+    (P(r'EdgeReference<.*> as EdgeRef>::target$'), m_edgeref_target),
+    (P(r'EdgeReference<.*> as EdgeRef>::source$'), m_edgeref_source),
+    (P(r'^ndarray::impl_constructors::<impl ArrayBase<.*>>::default::<'), m_array_default),
+    (P(r'^<ArrayBase<.*> as (std::ops::)?Index(Mut)?<.*>>::index(_mut)?$'), m_array_index),
+    (P(r'^ndarray::impl_methods::<impl ArrayBase<.*>>::is_empty$'), m_array_is_empty),
+    (P(r'^<Box<.*> as From<.*>>::from$|^Box::<.*>::new$'), m_box_from),
+    (P(r'^<Box<.*> as Clone>::clone$'), m_box_clone),
+    (P(r'^<Box<.*> as Drop>::drop$'), m_noop_unit),
+    (P(r"^<&*(Box<.*>|Quantifier|bool|Grapheme|GraphemeCluster<'_>|BTreeSet<.*>|Vec<Expression<'_>>|Expression<'_>) as PartialEq>::(eq|ne)$"), m_deep_eq),
+    (P(r'^core::slice::<impl \[.*\]>::reverse$'), m_slice_reverse),
+    (P(r'^(std::)?slice::<impl \[.*\]>::sort_by_key::<'), m_sort_by_key),
+    (P(r'^BTreeSet::<.*>::union$|^HashSet::<.*>::union$'), m_set_union),
+    (P(r' as Itertools>::zip_longest::<'), m_zip_longest),
+    (P(r'^Option::<.*>::unwrap_or_default$'), m_unwrap_or_default),
+    (P(r"^<(Expression<'_>|Option<Expression<'_>>|GraphemeCluster<'_>|Grapheme|Quantifier|Vec<.*>) as Clone>::clone$"), m_plain_clone),
+] + MODELS2
